@@ -6,6 +6,7 @@ import (
 	"fmt"
 	"io"
 
+	"github.com/flanglet/kanzi-go/v2/bitstream"
 	kio "github.com/flanglet/kanzi-go/v2/io"
 )
 
@@ -169,6 +170,22 @@ func readerCtx(jobs uint, p *Params) map[string]any {
 		}
 	}
 	return ctx
+}
+
+// decompressSmallBuf is decompress with a 4 KiB input bitstream buffer instead of the default
+// 256 KiB (same code path, 60x less memory to zero per decode; used by the mass-mutation checks).
+func decompressSmallBuf(stream []byte, jobs uint, p *Params, rb int) readResult {
+	ibs, err := bitstream.NewDefaultInputBitStream(newSrc(stream), 4096)
+	if err != nil {
+		return readResult{Err: err}
+	}
+	r, err := kio.NewReaderWithCtx2(ibs, readerCtx(jobs, p))
+	if err != nil {
+		return readResult{Err: fmt.Errorf("reader construction: %w", err)}
+	}
+	res := drain(r, rb, 3)
+	r.Close()
+	return res
 }
 
 // decompress decodes stream with the given job count (p only matters for headerless streams).
